@@ -1295,6 +1295,7 @@ func (p *Parser) handleLimitToken(stmt *SelectStatement, limitToken Token) error
 			return parseErr
 		}
 		stmt.Limit = limit
+		stmt.HasLimit = true
 	} else if tok.Type == TokenMinus {
 		// 处理负数情况："-5"
 		nextTok := p.lexer.NextToken()
@@ -1424,6 +1425,7 @@ func (p *Parser) parseLimit(stmt *SelectStatement) error {
 	}
 
 	stmt.Limit = limit
+	stmt.HasLimit = true
 	return nil
 }
 
